@@ -6,6 +6,7 @@
 import NiVerif.Gen.TimeDelta
 import NiVerif.Gen.DateTime
 import NiVerif.Gen.BtDtypes
+import NiVerif.Gen.BtElemSites
 import NiVerif.Model.Record
 import NiVerif.Model.BtElem
 import NiVerif.Proofs.Bits
@@ -135,6 +136,71 @@ theorem record_roundtrip (t : Int) (h : InI128 t) : arrLoad (arrStore t) = .ok t
   simp only [Gen.TimeValueTuple.to_cvi, Gen.TimeValueTuple.from_cvi]
   rw [Model.Record.decode_encode _ _ (by omega) (by omega)]
   exact from_tuple_to_tuple t h
+
+/-! ### Tier T29: the element chains at every store / load site of the two array classes (`Gen/BtElemSites`) -/
+
+open Model.BtElem in
+/-- the documented chain writes the model's record, for either class -/
+theorem store_chain_eq_model (cls : String) (t : Int) :
+    runStore cls ["to_tuple", "to_cvi"] t = some (arrStore t) := by
+  unfold runStore arrStore
+  simp only [List.foldlM_cons, List.foldlM_nil, storeStep, Option.bind_eq_bind, Option.bind_some, Option.pure_def]
+  cases isDateTime cls <;> simp [dt_to_tuple_eq]
+
+open Model.BtElem in
+/-- **Every statement of DateTimeArray / TimeDeltaArray that writes records** — constructor, `a[i] = x`, the three branches of
+    slice assignment with the `np.insert` of the growing branch, `insert` — **stores, for every element, exactly the record of
+    `record_bytes`**: fraction little-endian at offset 0, whole seconds at offset 8. -/
+theorem gen_store_sites_eq_model :
+    ∀ s ∈ Gen.BtElemSites.store_sites, ∀ t : Int, runStore s.1 s.2.2.2 t = some (arrStore t) := by
+  have h : ∀ s ∈ Gen.BtElemSites.store_sites, s.2.2.2 = ["to_tuple", "to_cvi"] := by decide +kernel
+  intro s hs t
+  rw [h s hs]
+  exact store_chain_eq_model s.1 t
+
+theorem dt_from_tuple_eq (w f : Int) : Gen.DateTime.from_tuple w f = from_tuple w f := by
+  simp only [Gen.DateTime.from_tuple]
+  cases from_tuple w f <;> rfl
+
+open Model.BtElem in
+theorem load_chain_eq_model (cls : String) (bytes : List Int) :
+    runLoad cls ["item", "from_cvi", "from_tuple"] bytes = some (arrLoad bytes) := by
+  unfold runLoad arrLoad
+  simp only [dt_from_tuple_eq, ite_self]
+
+open Model.BtElem in
+/-- every decoding site reads the record the way the model's `arrLoad` does -/
+theorem gen_load_sites_eq_model :
+    ∀ s ∈ Gen.BtElemSites.load_sites, ∀ bytes, runLoad s.1 s.2.2 bytes = some (arrLoad bytes) := by
+  have h : ∀ s ∈ Gen.BtElemSites.load_sites, s.2.2 = ["item", "from_cvi", "from_tuple"] := by decide +kernel
+  intro s hs b
+  rw [h s hs]
+  exact load_chain_eq_model s.1 b
+
+open Model.BtElem in
+/-- **C02's array clause over the sources' own statements**: whatever site stored an in-range element and whatever site reads
+    it back, the element comes back bit-exactly. -/
+theorem gen_array_element_roundtrip (t : Int) (h : InI128 t) :
+    ∀ s ∈ Gen.BtElemSites.store_sites, ∀ l ∈ Gen.BtElemSites.load_sites,
+      ∃ bytes, runStore s.1 s.2.2.2 t = some bytes ∧ runLoad l.1 l.2.2 bytes = some (.ok t) := by
+  intro s hs l hl
+  refine ⟨arrStore t, gen_store_sites_eq_model s hs t, ?_⟩
+  rw [gen_load_sites_eq_model l hl, record_roundtrip t h]
+
+/-- both classes have store sites of every kind and a decoding site; the constructors name the record dtypes of `cvi_layout` -/
+theorem gen_sites_cover :
+    (∀ c ∈ ["DateTimeArray", "TimeDeltaArray"], ∀ k ∈ ["fromiter", "setitem", "insert"],
+        ∃ s ∈ Gen.BtElemSites.store_sites, s.1 = c ∧ s.2.2.1 = k)
+    ∧ (∀ c ∈ ["DateTimeArray", "TimeDeltaArray"], ∃ l ∈ Gen.BtElemSites.load_sites, l.1 = c)
+    ∧ Gen.BtElemSites.record_dtypes.map (fun d => (d.1, d.2.2))
+        = [("TimeDeltaArray", "CVITimeIntervalDType"), ("DateTimeArray", "CVIAbsoluteTimeDType")] := by
+  decide +kernel
+
+open Model.BtElem in
+/-- what the chain protects: a site that forgets `to_cvi`, or swaps the two calls, stores nothing the model accepts -/
+theorem store_chain_refusals (cls : String) (t : Int) :
+    runStore cls ["to_tuple"] t = none ∧ runStore cls ["to_cvi", "to_tuple"] t = none ∧ runStore cls [] t = none := by
+  refine ⟨?_, ?_, ?_⟩ <;> simp [runStore, storeStep]
 
 -- non-vacuity: the hypotheses are met by non-trivial values
 example : InI128 (-(2:Int)^127) ∧ InI128 ((2:Int)^127 - 1) ∧ InI64 (-5) ∧ InU64 ((2:Int)^64 - 1) := by
